@@ -218,6 +218,15 @@ def heartbeat_onopen(r, mode, ndev, src):
     return case(cfg(mode, ndev, src, cold=True, hb=True, extra='onopen=%d,%d' % (iv, off)), timeline(ev))
 
 
+def app_scheduler_onopen(r, mode, ndev, src):
+    """the application's own tN2kSyncScheduler, given period and offset in the OnOpen callback and polled after every call: its events are
+    anchored at the moment of Open() like the library's own synchronised schedules, at every clock origin (seed C13-19)"""
+    p, o = r.choice([(1000, 300), (700, 0), (2500, 100)])
+    ev = [(t, ['P']) for t in (0, 1, 2, 100, 200, 201, 202, 203)]
+    ev += [(203 + k * 97, ['P']) for k in range(1, 60)]
+    return case(cfg(mode, ndev, src, cold=True, extra='appsched=%d,%d' % (p, o)), timeline(ev))
+
+
 def heartbeat_long_gap(r, mode, ndev, src, cold, gap, variant):
     """heartbeat across a gap of `gap` ms (< 2^32) in which nothing is called, then polls; crossing the 32-bit wrap for origins
     shortly below 2^32 (the 32-bit build's N2kMillis64() only notices a wrap when it is called)"""
@@ -340,6 +349,7 @@ def directed(seed, tier):
         add('hb-warm-long', heartbeat(r, r.choice([1, 2]), r.choice([1, 2, 3]), r.choice([0, 22, 100]), False, 'long'))
         add('hb-cold', heartbeat(r, r.choice([1, 2]), r.choice([1, 2]), r.choice([0, 22]), True, 'short' if not thorough else 'long'))
         add('hb-onopen', heartbeat_onopen(r, r.choice([1, 2]), r.choice([1, 2]), r.choice([0, 22])))
+        add('app-sched-onopen', app_scheduler_onopen(r, r.choice([1, 2, 0]), 1, r.choice([0, 22])))
         for v in (['99', '100', '101', '0', '150'] if thorough else ['99', '100', '101']):
             add('slots-fp-' + v, slot_eviction(r, r.choice([2, 2, 0, 3, 4, 1]), r.choice([1, 2]), v))
         for age in ([99, 100, 101] if thorough else [r.choice([99, 100, 101])]):
